@@ -3,6 +3,8 @@ package cluster
 import (
 	"fmt"
 	cstypes "github.com/lianxiangcloud/linkchain/consensus/types"
+	"github.com/lianxiangcloud/linkchain/libs/ser"
+	"github.com/lianxiangcloud/linkchain/types"
 	"math/big"
 	"os"
 	"sort"
@@ -74,6 +76,10 @@ func (cl *Cluster) modeCheck(e *event) {
 	c := cl.c
 	if cl.mode == ModeProposer {
 		cl.proposerCheck()
+		return
+	}
+	if cl.mode == ModeParts {
+		cl.partsCheck()
 		return
 	}
 	if cl.mode != ModeValidation {
@@ -284,4 +290,56 @@ func (cl *Cluster) anyLeftCommitStep() bool {
 		}
 	}
 	return false
+}
+
+// partsCheck is the node-level part of C12: whatever block a correct node holds
+// as its proposal block, assembled from the parts it received, is the block
+// those bytes encode: decoding the completed part set afresh gives a block with
+// the same hash, the hash the block reports is the hash of its own header, and
+// it is the hash the part set was announced for when the node knows one
+// (proposal or +2/3 majority). Checked whenever a node's (proposal block, part
+// set) pair changes.
+func (cl *Cluster) partsCheck() {
+	c := cl.c
+	if cl.partsSeen == nil {
+		cl.partsSeen = map[int]string{}
+	}
+	for _, n := range cl.honest() {
+		if !n.alive || n.failed || n.cs == nil {
+			continue
+		}
+		rs := n.roundState()
+		if rs.ProposalBlock == nil || rs.ProposalBlockParts == nil || !rs.ProposalBlockParts.IsComplete() {
+			continue
+		}
+		sig := fmt.Sprintf("%p|%x|%d", rs.ProposalBlock, rs.ProposalBlockParts.Header().Hash, rs.ProposalBlockParts.Header().Total)
+		if cl.partsSeen[n.idx] == sig {
+			continue
+		}
+		cl.partsSeen[n.idx] = sig
+		c.Evals(1)
+		var fresh *types.Block
+		var derr error
+		if _, _, panicked := kernelTry(func() {
+			_, derr = ser.DecodeReader(rs.ProposalBlockParts.GetReader(), &fresh, int64(rs.ProposalBlockParts.Header().Total)*int64(cl.cfg.PartSize)+1024)
+		}); panicked || derr != nil || fresh == nil {
+			// a complete, proof-checked part set whose bytes do not decode: the
+			// proposer's doing (Byzantine proposers sign what they like)
+			c.Probe("complete-part-set-does-not-decode")
+			continue
+		}
+		held := rs.ProposalBlock.Hash()
+		if fresh.Hash() != held {
+			c.Violate("assembled-block", "C12/node/assembled-block-hash-differs-from-its-bytes", "node %d at H=%d R=%d holds a proposal block that reports hash %x, but the completed part set it was assembled from (parts hash %x, %d parts) decodes to a block with hash %x: the block object is not the bytes received", n.idx, rs.Height, rs.Round, held.Bytes()[:6], rs.ProposalBlockParts.Header().Hash[:6], rs.ProposalBlockParts.Header().Total, fresh.Hash().Bytes()[:6])
+			return
+		}
+		if rs.ProposalBlock.Header.Hash() != held {
+			c.Violate("assembled-block", "C12/node/block-hash-differs-from-header-hash", "node %d at H=%d R=%d: Block.Hash() %x differs from the hash of the block's own header %x", n.idx, rs.Height, rs.Round, held.Bytes()[:6], rs.ProposalBlock.Header.Hash().Bytes()[:6])
+			return
+		}
+		c.Probe("assembled-block-checked")
+		if rs.LockedBlock != nil && rs.LockedBlock != rs.ProposalBlock {
+			c.Probe("assembled-while-holding-another-locked-block")
+		}
+	}
 }
